@@ -17,16 +17,20 @@
 (*                         never run, the agent stays "started"            *)
 (*   KeepsActing           threads that already run the agent's trace      *)
 (*                         function keep taking actions after shutdown     *)
+(*   SaveOnce              the hooks found before start are remembered at  *)
+(*                         the FIRST start only: a later start/shutdown    *)
+(*                         cycle puts back hooks the application has since *)
+(*                         replaced                                        *)
 (***************************************************************************)
 EXTENDS Naturals, Sequences, FiniteSets, TLC
 
 CONSTANTS NPlugins, MaxCalls,
-          UnconditionalRestore, AbortOnFailure, KeepsActing
+          UnconditionalRestore, AbortOnFailure, KeepsActing, SaveOnce
 
 Hooks == {"None", "Other1", "Other2", "Agent"}
 
 VARIABLES noTrace,    \* NO_TRACE configuration (never changes)
-          preSys, preThr,     \* the hooks found before the first start (never change)
+          preSys, preThr,     \* the hooks the agent remembers having found when it (last) really started
           appSys, appThr,     \* the hooks the APPLICATION last installed itself (a debugger attached while the agent
                               \* runs with tracing disabled replaces them)
           sysTrace, thrTrace, \* sys.gettrace() of the starting thread / threading.gettrace()
@@ -60,11 +64,14 @@ Start ==
     /\ sdpc = 0 /\ ncalls < MaxCalls
     /\ ncalls' = ncalls + 1
     /\ IF started
-         THEN UNCHANGED <<sysTrace, thrTrace, started, pollAlive, everStarted>>        \* repeat starts do nothing
+         THEN UNCHANGED <<sysTrace, thrTrace, started, pollAlive, everStarted, preSys, preThr>>   \* repeat starts do nothing
          ELSE /\ started' = TRUE /\ pollAlive' = TRUE /\ everStarted' = TRUE
-              /\ IF noTrace THEN UNCHANGED <<sysTrace, thrTrace>>
-                            ELSE sysTrace' = "Agent" /\ thrTrace' = "Agent"
-    /\ UNCHANGED <<noTrace, preSys, preThr, appSys, appThr, sdpc, failing, sdDone, drained, pluginDown, actedAfter>>
+              /\ IF noTrace THEN UNCHANGED <<sysTrace, thrTrace, preSys, preThr>>
+                            ELSE /\ sysTrace' = "Agent" /\ thrTrace' = "Agent"
+                                 /\ IF SaveOnce /\ everStarted
+                                      THEN UNCHANGED <<preSys, preThr>>
+                                      ELSE preSys' = sysTrace /\ preThr' = thrTrace      \* what is there NOW
+    /\ UNCHANGED <<noTrace, appSys, appThr, sdpc, failing, sdDone, drained, pluginDown, actedAfter>>
 
 (* shutdown() is called; the environment decides which of its steps will fail *)
 ShutdownBegin(f) ==
@@ -117,8 +124,17 @@ AppSetsHooks ==
     /\ UNCHANGED <<noTrace, preSys, preThr, started, pollAlive, sdpc, failing, sdDone, drained, pluginDown, ncalls,
                    actedAfter, everStarted>>
 
+(* between two lives of the agent the hooks are the application's again: it may replace or remove them *)
+AppChangesHooks(a, b) ==
+    /\ ~started /\ sdpc = 0 /\ everStarted
+    /\ <<a, b>> # <<appSys, appThr>>
+    /\ appSys' = a /\ appThr' = b /\ sysTrace' = a /\ thrTrace' = b
+    /\ UNCHANGED <<noTrace, preSys, preThr, started, pollAlive, sdpc, failing, sdDone, drained, pluginDown, ncalls,
+                   actedAfter, everStarted>>
+
 Next ==
     \/ Start \/ AppSetsHooks
+    \/ \E a, b \in {"None", "Other1", "Other2"} : AppChangesHooks(a, b)
     \/ \E f \in SUBSET (Steps \ {1}) : ShutdownBegin(f)       \* restoring the hooks itself cannot fail
     \/ ShutdownStep \/ ShutdownMark \/ HostEventAfter
 
